@@ -28,6 +28,9 @@ const PROXY_HOST: &str = "proxy.test";
 const PROXY_IP: &str = "10.0.0.9";
 const PROXY_PORT: u16 = 3128;
 
+/// hosts a hop may live on: the three names and two of their addresses as IP literals
+const CHAIN_HOSTS: &[&str] = &["a.test", "b.test", "c.test", "10.0.0.2", "10.0.0.3"];
+
 fn gen_chain(g: &mut G, first_path: &str) -> Graph {
     let len = g.range(1, 3) as usize;
     // scheme change: the last redirect points at an https origin
@@ -36,7 +39,7 @@ fn gen_chain(g: &mut G, first_path: &str) -> Graph {
         g.probe("redirect-changes-scheme-to-https");
     }
     let mut nodes: Vec<Node> = Vec::new();
-    let h0 = g.pick(HOSTS).0;
+    let h0 = *g.pick(CHAIN_HOSTS);
     let p0 = *g.pick(PORTS);
     let mut cur = if p0 == 80 { format!("http://{}{}", h0, first_path) } else { format!("http://{}:{}{}", h0, p0, first_path) };
     for i in 0..len {
@@ -44,13 +47,13 @@ fn gen_chain(g: &mut G, first_path: &str) -> Graph {
         let (loc, form): (String, &'static str) = match g.below(3) {
             _ if to_https && i + 1 == len => ("https://secure.test/final?tls=1".to_string(), "absolute-https"),
             0 => {
-                let h = g.pick(HOSTS).0;
+                let h = *g.pick(CHAIN_HOSTS);
                 let port = *g.pick(PORTS);
                 (if port == 80 { format!("http://{}/hop{}", h, i + 1) } else { format!("http://{}:{}/hop{}", h, port, i + 1) }, "absolute")
             }
             1 => (format!("/hop{}?same=authority", i + 1), "absolute-path"),
             _ => {
-                let h = g.pick(HOSTS).0;
+                let h = *g.pick(CHAIN_HOSTS);
                 (format!("//{}/hop{}", h, i + 1), "scheme-relative")
             }
         };
@@ -73,7 +76,7 @@ pub fn scenario(g: &mut G, ctx: &RunCtx) -> RunReport {
     let use_proxy = g.chance(2, 3);
     let mut no_proxy: Vec<&str> = Vec::new();
     if use_proxy {
-        for (h, _) in HOSTS {
+        for h in CHAIN_HOSTS {
             if g.chance(1, 3) {
                 no_proxy.push(h);
             }
@@ -83,19 +86,27 @@ pub fn scenario(g: &mut G, ctx: &RunCtx) -> RunReport {
     let sim = Sim::new(ctx.sim_config());
     let seen = Arc::new(Mutex::new(Seen::default()));
     c09::install_graph(&sim, &gr, &seen);
-    // forward proxy: routes by absolute-form target
+    let seen_tls = Arc::new(Mutex::new(Seen::default()));
+    // forward proxy (also serves CONNECT for the https hop): routes by absolute-form target
     {
         let ip: IpAddr = PROXY_IP.parse().unwrap();
         sim.add_host(PROXY_HOST, vec![ip]);
         let nodes = gr.nodes.clone();
         let seen2 = seen.clone();
+        let seen_tunnel = seen_tls.clone();
+        let tunnel_log = Arc::new(Mutex::new(crate::tlspeer::TlsLog::default()));
+        let plog = Arc::new(Mutex::new(crate::tlspeer::ProxyLog::default()));
         sim.add_listener(
             ip,
             PROXY_PORT,
             ConnectBehaviour::Accept { latency_ns: NS_PER_MS },
             Some(Box::new(move |_i| {
                 let nodes = nodes.clone();
-                Box::new(HttpPeer::new(
+                let seen2 = seen2.clone();
+                let seen_tunnel = seen_tunnel.clone();
+                let tunnel_log = tunnel_log.clone();
+                let plog = plog.clone();
+                Box::new(crate::tlspeer::DualProxy::new(Box::new(move |_c| { let nodes = nodes.clone(); Box::new(HttpPeer::new(
                     Arc::new(move |r, _c| {
                         let t = r.target.clone();
                         let norm = urlref::http_target(&t).map(|(h, p, pq)| if p == 80 { format!("http://{}{}", h, pq) } else { format!("http://{}:{}{}", h, p, pq) });
@@ -110,12 +121,36 @@ pub fn scenario(g: &mut G, ctx: &RunCtx) -> RunReport {
                         }
                     }),
                     seen2.clone(),
+                )) }),
+                Box::new(move |conn| {
+                    let seen_tunnel = seen_tunnel.clone();
+                    let tunnel_log = tunnel_log.clone();
+                    let mut reply = crate::peers::Script::default();
+                    reply.acts.push(crate::peers::Act::Send(b"HTTP/1.1 200 Connection established\r\n\r\n".to_vec()));
+                    Box::new(crate::tlspeer::ConnectProxy::new(
+                        reply,
+                        true,
+                        Box::new(move |_a, c2| {
+                            let inner = HttpPeer::new(
+                                Arc::new(|_r, _c| {
+                                    let mut s = crate::peers::Script::default();
+                                    s.acts.push(crate::peers::Act::Send(b"HTTP/1.1 200 OK\r\nContent-Length: 3\r\n\r\ntls".to_vec()));
+                                    s.acts.push(crate::peers::Act::Fin);
+                                    s
+                                }),
+                                seen_tunnel.clone(),
+                            );
+                            Some(Box::new(crate::tlspeer::TlsPeer::new("good", Box::new(inner), tunnel_log.clone(), c2)) as Box<dyn attosim::Peer>)
+                        }),
+                        plog.clone(),
+                        conn,
+                    ))
+                }),
                 ))
             })),
         );
     }
     // https origin for the scheme-changing hop
-    let seen_tls = Arc::new(Mutex::new(Seen::default()));
     {
         let sip: IpAddr = "10.0.0.5".parse().unwrap();
         sim.add_host("secure.test", vec![sip]);
@@ -145,7 +180,8 @@ pub fn scenario(g: &mut G, ctx: &RunCtx) -> RunReport {
         let mut rb = attohttpc::RequestBuilder::new(attohttpc::Method::from_bytes(plan.method.as_bytes()).unwrap(), &url0);
         let mut pb = attohttpc::ProxySettings::builder();
         if use_proxy {
-            pb = pb.http_proxy(url::Url::parse(&format!("http://{}:{}", PROXY_HOST, PROXY_PORT)).unwrap());
+            let pu = url::Url::parse(&format!("http://{}:{}", PROXY_HOST, PROXY_PORT)).unwrap();
+            pb = pb.http_proxy(pu.clone()).https_proxy(pu);
             for n in &no_proxy2 {
                 pb = pb.add_no_proxy_host(n);
             }
@@ -185,7 +221,7 @@ pub fn scenario(g: &mut G, ctx: &RunCtx) -> RunReport {
                     }
                     prev_proxied = Some(is_proxied);
                     // dialled peer belongs to this hop's URL (or to the proxy selected for it)
-                    let want_addr = if is_proxied {
+                    let want_addr = if is_proxied || (is_https && use_proxy) {
                         format!("{}:{}", PROXY_IP, PROXY_PORT)
                     } else if is_https {
                         format!("10.0.0.5:{}", port)
